@@ -282,6 +282,34 @@ class AI:
                 push(nb, nst, b)
         return outcomes, back
 
+    def run_states(self, body, start, state, region):
+        """like run(), but returns the states per block: {block: {(eof, p, tok, info): cur mask}}"""
+        IN = {}
+        work = []
+        outcomes = set()
+
+        def push(b, st):
+            if region is not None and b not in region:
+                return
+            d = IN.setdefault(b, {})
+            k = st[1:]
+            old = d.get(k, 0)
+            new = old | st[0]
+            if new != old:
+                d[k] = new
+                work.append((b, (new,) + k))
+
+        push(start, state)
+        first = True
+        while work:
+            b, st = work.pop()
+            for nb, nst in self.step(body, b, st, outcomes):
+                if nb == start and not first:
+                    pass
+                push(nb, nst)
+            first = False
+        return IN
+
     # -- helpers on state
     @staticmethod
     def _clamp(p):
